@@ -527,8 +527,16 @@ func (pd *perRawBitData) parseSequenceOf(v reflect.Value, params fieldParameters
 		}
 	} else {
 		perTrace(3, fmt.Sprintf("Encoding Length(%d) of \"SEQUENCE OF\" with Semi-Constraint Range(%d..)", numElements, lb))
+		// X.691 10.9.3.5 - 10.9.3.7: the count itself as an unconstrained length determinant (one octet below 128, two below 16K)
+		if numElements >= 16384 {
+			return fmt.Errorf("SEQUENCE OF with %d elements needs a fragmented length determinant", numElements)
+		}
 		pd.appendAlignBits()
-		pd.bytes = append(pd.bytes, byte(numElements&0xff))
+		if numElements < 128 {
+			pd.bytes = append(pd.bytes, byte(numElements))
+		} else {
+			pd.bytes = append(pd.bytes, byte(0x80|(numElements>>8)), byte(numElements&0xff))
+		}
 		perTrace(1, perRawBitLog(8, len(pd.bytes), pd.bitsOffset, uint64(numElements)))
 	}
 	perTrace(2, fmt.Sprintf("Encoding  \"SEQUENCE OF\" struct %s with len(%d)", v.Type().Elem().Name(), numElements))
